@@ -1,5 +1,5 @@
 CONSTANTS
-  OptSet <- ResOpts
+  OptSet <- ResOptsT
   RootSets <- ResRoots
   PutIds <- ResPutIds
   ManyArgs <- ResMany
